@@ -121,3 +121,13 @@ def check_item_handlers(ctx, module_names: typing.Iterable[str]):
   lint.handler_around_loop(ctx, mods(ctx, list(module_names)))
   ctx.check(lint_j_fixture_matches(), "LINT-j", "fixture|a tolerant handler around a loop is detected", "ttverif/fixtures/lint_j.py",
             "the rule still matches its positive fixture", "LINT-j no longer matches its positive fixture (rule broken)")
+
+
+def check_numeric_fields(ctx, module_names: typing.Iterable[str]):
+  """LINT-k on the classes of the given modules, with its positive fixture (expected count on the repository: zero)."""
+  from ..rules import lint
+  from ..selfcheck import lint_k_fixture_matches
+  names = set(module_names)
+  lint.numeric_field_truthiness(ctx, [c for c in ctx.ix.classes.values() if c.module.name in names])
+  ctx.check(lint_k_fixture_matches(), "LINT-k", "fixture|a numeric field tested by truthiness is detected", "ttverif/fixtures/lint_k.py",
+            "the rule still matches its positive fixture", "LINT-k no longer matches its positive fixture (rule broken)")
